@@ -83,6 +83,10 @@ func (c05) Run(e *simkit.Env, cc any) {
 				e.Fail("C05/callback-after-terminate", "%s %s: callback %q ran after terminate%s; tail of callback log: %s", c.Kind, stage, last, t.tag(), strings.Join(tailS(log, 8), " "))
 				return false
 			}
+			if cb := th.endedAfterTerminate(); cb != "" {
+				e.Fail("C05/terminate-before-callback-finished", "%s %s: terminate was entered while callback %q of the same process was still in progress; it finished after terminate%s", c.Kind, stage, cb, t.tag())
+				return false
+			}
 			t.mu.Lock()
 			tr := reasonKey(t.termReason)
 			ol := append([]error(nil), t.obsLink...)
@@ -152,6 +156,10 @@ func (c05) Run(e *simkit.Env, cc any) {
 	}
 	if last != "terminate" {
 		e.Fail("C05/callback-after-terminate", "%s after node stop: callback %q ran after terminate%s; tail: %s", c.Kind, last, t.tag(), strings.Join(tailS(log, 8), " "))
+		return
+	}
+	if cb := th.endedAfterTerminate(); cb != "" {
+		e.Fail("C05/terminate-before-callback-finished", "%s after node stop: terminate was entered while callback %q of the same process was still in progress; it finished after terminate%s", c.Kind, cb, t.tag())
 		return
 	}
 	t.mu.Lock()
